@@ -4,7 +4,7 @@
 //! validation and normalisation agree with the model and that an Err leaves the receiver
 //! unchanged.
 
-use super::history::{parse_state, St};
+use super::history::St;
 use crate::engine::*;
 use crate::obs::*;
 use crate::spaces::*;
@@ -164,7 +164,7 @@ fn call_model(f: F, m: &MLocale, b: &[u8]) -> (R, Option<MLocale>) {
 pub fn receivers() -> Vec<(&'static str, St)> {
     ["und", "und-t-h0-hybrid-u-abc-ca-foo-x-a", "en-t-de-h0-hybrid-k1-bar-u-abc-zzz9-ca-foo-nu-thai-x-a-zz"]
         .iter()
-        .map(|s| (*s, parse_state(s)))
+        .filter_map(|s| super::history::try_parse_state(s).ok().map(|st| (*s, st)))
         .collect()
 }
 
@@ -259,7 +259,7 @@ pub fn run_arg_sweep(ctx: &Ctx, rep: &mut Report, full: bool) {
     for (sp, nrecv) in &spaces {
         let st = run_space(ctx, sp.as_ref(), 1 << 10, &|b, l| {
             // receivers: with nrecv == 1 only the full one
-            for ri in (3 - *nrecv)..3 {
+            for ri in rs.len().saturating_sub(*nrecv)..rs.len() {
                 check_arg(ri, &rs[ri].1, b, full, l, &coll);
             }
             if l.wants(0) && rm::is_attr(b) {
